@@ -40,6 +40,9 @@ def check(ctx):
     ed = ctx.model.module("dask/array/routines.py").func("expand_dims")
     ok = bool(find("shape = [1 if ax in axis else next(shape_it) for ax in range(out_ndim)]", ed)) and bool(find("shape_it = iter(a.shape)", ed)) and bool(find("axis = validate_axis(axis, out_ndim)", ed)) and bool(find("out_ndim = len(axis) + a.ndim", ed))
     ctx.ob("ALG.expand-dims", ed, "expand_dims: the output shape is built position by position (1 where the axis is new, else the next input length), independent of the order in which axes are listed", ok, "" if ok else "the new axes are placed one after the other in the order given: an unsorted axis tuple yields a different shape than NumPy")
+    from .C20 import take_rules
+
+    take_rules(ctx)
 
 
 VARIANTS = [
